@@ -117,6 +117,38 @@ class SpecPlan(Plan):
         return {"suite": "spec_replay", "arg": {"op": op, "a": a, "b": b, "ghost_v": m.get("ghost_v")}}
 
 
+class JobsPlan(Plan):
+    """proof obligations from a fixed list of jobs + optional bounded cross-check"""
+
+    def __init__(self, pid, jobs, rtc=(), technique="", trusted_base=(), assumptions=(), level="proof", replay=None, explanation=None):
+        self.pid, self.jobs, self.rtc = pid, list(jobs), [(s, None) for s in rtc]
+        self.technique, self.trusted_base, self.assumptions, self.level = technique, list(trusted_base), list(assumptions), level
+        self._replay = replay
+        if explanation:
+            self.explanation = explanation
+
+    def stages(self, tier, nproc):
+        named, functions, crashes, notes = {}, {}, [], []
+        tmo = 20000 if tier == "quick" else 120000
+        jobs = [(n, fn, {**kw, "timeout_ms": tmo}) for n, fn, kw in self.jobs]
+        _merge(common.run_jobs(jobs, nproc), named, functions, crashes)
+        return named, functions, crashes, notes
+
+    def own_rtc(self, check):
+        return check.startswith(self.pid + ".")
+
+    def replay_request(self, name, rec):
+        return self._replay(name, rec) if self._replay else None
+
+
+def _c19_replay(name, rec):
+    m = rec.get("model") or {}
+    if "a" not in m:
+        return None
+    op = "and" if ".and." in name else "or" if ".or." in name else "invert" if ".invert." in name else "special"
+    return {"suite": "generic_replay", "arg": {"op": op, "a": m.get("a"), "b": m.get("b"), "candidate": m.get("candidate", "")}}
+
+
 class RtcPlan(Plan):
     """bounded stand-in only: run-time contracts on the real functions (labelled bounded, never counted as proved)"""
     level = "exploration"
@@ -142,6 +174,29 @@ RTC_SUITES = {
 def get_plan(pid):
     if pid in ("C01", "C05"):
         return SpecPlan(pid)
+    if pid == "C19":
+        return JobsPlan("C19", [(f"generic.{w}", "generic_law", {"which": w}) for w in ("and", "or", "invert", "special", "constructor")],
+                        rtc=["generic_spec"], replay=_c19_replay,
+                        technique="contracts on GenericSpecifier.__and__/__or__/__invert__/__contains__/__post_init__ and Empty/Any.__contains__; VCs from the real AST over SMT strings (z3 seq, cvc5 fallback)",
+                        trusted_base=["A-ENGINE", "A-STDLIB: Python `s in t` on str is substring containment, str ordering is code-point lexicographic (= SMT-LIB str.<)", "A-TERM"])
+    if pid == "C09":
+        return JobsPlan("C09", [(f"tags_platform.{k}", "tags_platform", {"chunk": (k, 16)}) for k in range(16)], rtc=["tags_platform"],
+                        replay=lambda name, rec: ({"suite": "platform_replay", "arg": {"platform": rec["model"]["platform"]}} if (rec.get("model") or {}).get("platform") else None),
+                        technique="contract on Platform.compatible_tags per (OS class, architecture): declarative membership rule + rank order from PEP 600/656/macOS; "
+                                  "loop invariants (sound/ordered/complete) for unbounded integer versions; abstract tag terms (T-TAG); z3 with deterministic instantiation",
+                        trusted_base=["A-ENGINE", "A-STRFMT: f-string renderings are injective on (template, integer arguments) - checked exhaustively on the C09 grid by the bounded part",
+                                      "the PEP floor/alias/format tables in contracts/tags_platform.py are an independent transcription of PEP 513/571/599/600/656 and packaging's macOS rules", "A-TERM"])
+    if pid == "C13":
+        jobs = [("eqhash.reflexive", "eqhash_law", {"which": "reflexive"})]
+        jobs += [(f"eqhash.pairs.{k}", "eqhash_law", {"which": "pairs", "chunk": (k, 4)}) for k in range(4)]
+        jobs += [(f"eqhash.triples.{k}", "eqhash_law", {"which": "triples", "chunk": (k, 10)}) for k in range(10)]
+        return JobsPlan("C13", jobs, rtc=["eqhash"],
+                        technique="finite case split over the classes with symbolic fields: ==/hash resolved by the modelled Python protocol on the real __eq__/__hash__ "
+                                  "(dataclass-generated ones synthesised from the field flags in the AST); hash uninterpreted on values; z3",
+                        trusted_base=["A-ENGINE", "A-DATACLASS: generated __init__/__eq__/__hash__ follow the field flags in the source",
+                                      "A-STDLIB: the hash of a tuple is a function of the hashes of its items", "A-ORD", "A-TERM"],
+                        assumptions=["compound markers (MultiMarker/MarkerUnion/EqualityMarkerUnion/InequalityMultiMarker) and OrderedSet are covered by the bounded part only",
+                                     "interchangeability of MarkerExpression operands is decided by the read-set (frame) obligation: every field read by _evaluate/__str__/_get_specifier is compared by __eq__"])
     if pid in RTC_SUITES:
         return RtcPlan(pid, RTC_SUITES[pid])
     raise KeyError(pid)
